@@ -2290,7 +2290,12 @@ func main() {
 		}
 		famCov = append(famCov, map[string]interface{}{"family": r.name, "universe": r.universe, "type_pairs": r.pairs, "evaluations": total.perFamily[r.name], "complete": r.complete, "wall_s": r.wall})
 	}
+	dfCases, dfEvals := familyDecodeFrom(chk)
+	mlCases := familyMemberless(chk)
 	cov := map[string]interface{}{
+		"memberless_structs": map[string]interface{}{"cases": mlCases, "what": "struct types without members (struct{}, the set idiom map[K]struct{}, marker members) alone, in slices, maps and structs: conversion into the same / widened type succeeds, the way back recovers the source"},
+		"decode_from_histories": map[string]interface{}{"histories": dfCases, "calls": dfEvals,
+			"what": "conversion.DecodeFrom (the entry point bus/proxy.go uses for replies) over 4 wire/destination type pairs holding maps and slices, every ordered history of <= 3 sources out of 3-5 per pair, each call into a fresh destination; the result of every call must be what ConvertFrom gives for that source alone"},
 		"evaluations":                          total.evals,
 		"type_pairs":                           total.pairs,
 		"static_struct_types":                  len(statics),
@@ -2322,7 +2327,7 @@ func main() {
 		"a destination member without counterpart in the source is left as it was (fresh destination: zero); this is how 'structs matched by field name' is made observable for names that are NOT the same name (names/one-each-side): if the implementation matched them, the member would change or the pair would be refused",
 		"not judged (the statement is silent): narrowing and cross-signedness integer pairs, struct members without a counterpart, the content of struct members that are not exported, nil versus empty containers, NaN payload bits, int / uint / pointer / interface kinds",
 		"struct members are matched by name with letter case ignored (the repository's TestStruct expects exported E to receive unexported e); not in the universe: an unexported (or blank) destination member that HAS a counterpart in the source, and structs with two members equal up to letter case",
-		"conversion.DecodeFrom / EncodeInto are not exercised (they add the codec, which is C02/C03's business); ConvertFrom is the function they delegate to",
+		"conversion.DecodeFrom is exercised with call histories over 4 type pairs only (family decode_from_histories: what an earlier call leaves behind must not reach a later one); its codec half is C02/C03's business. EncodeInto is not exercised (no caller in the repository)",
 	}
 	os.Exit(chk.Finish(cov, assumptions))
 }
